@@ -153,47 +153,69 @@ Proof. intros H. rewrite <- (firstn_skipn n l). apply in_or_app; auto. Qed.
 Lemma slice_sub k n files e : In e (removal_slice k n files) -> In e files.
 Proof. destruct k; simpl; [apply in_skipn|apply in_firstn]. Qed.
 
+
 (* the removal loop *)
-Lemma remove_loop_sub : forall vs d e, In e (fst (remove_loop d vs)) -> In e d.
+Lemma remove_loop_sub : forall vs d e, In e (remove_loop d vs) -> In e d.
 Proof.
-  induction vs as [|v r]; simpl; intros d e H; auto. destruct (e_dir v); simpl in *; auto.
-  apply IHr in H. eapply del_in; eauto.
+  induction vs as [|v r]; simpl; intros d e H; auto. apply IHr in H. eapply del_in; eauto.
 Qed.
 
-Lemma remove_loop_keeps n : forall vs d,
-  has_name n vs = false -> has_name n (fst (remove_loop d vs)) = has_name n d.
+Lemma remove_loop_names n : forall vs d,
+  has_name n (remove_loop d vs) = has_name n d && negb (has_name n vs).
 Proof.
-  induction vs as [|v r]; simpl; intros d H; auto. apply orb_false_iff in H as [H1 H2].
-  destruct (e_dir v); simpl; auto. rewrite IHr by auto. rewrite has_del, H1. auto.
+  induction vs as [|v r]; simpl; intros d.
+  - rewrite andb_true_r; auto.
+  - rewrite IHr, has_del. destruct (name_eqb n (e_name v)); simpl; auto. rewrite andb_false_r. auto.
 Qed.
 
-Lemma remove_loop_nodirs n : forall vs d, Forall (fun v => e_dir v = false) vs ->
-  snd (remove_loop d vs) = false /\
-  has_name n (fst (remove_loop d vs)) = has_name n d && negb (has_name n vs).
+Lemma remove_loop_keeps_entry e : forall vs d,
+  In e d -> has_name (e_name e) vs = false -> In e (remove_loop d vs).
 Proof.
-  induction vs as [|v r]; simpl; intros d F.
-  - split; auto. rewrite andb_true_r; auto.
-  - inversion F as [|? ? Hv Hr]; subst. rewrite Hv.
-    destruct (IHr (del_name (e_name v) d) Hr) as [A B]. split; auto.
-    rewrite B, has_del. destruct (name_eqb n (e_name v)); simpl; auto. rewrite andb_false_r. auto.
+  induction vs as [|v r]; simpl; intros d I H; auto. apply orb_false_iff in H as [H1 H2].
+  apply IHr; auto. apply del_keeps; auto. apply name_eqb_neq in H1. auto.
 Qed.
 
-(* the listing *)
-Lemma listing_in e d : In e (listing d) <-> In e d /\ e_name e <> cur_name.
-Proof. unfold listing. rewrite sort_in, filter_In, negb_true_iff, name_eqb_neq. tauto. Qed.
+(* str.startswith / str.endswith *)
+Lemma starts_with_app p x : starts_with (p ++ x) p = true.
+Proof. induction p as [|a p IH]; simpl; [destruct x; auto|]. rewrite N.eqb_refl. auto. Qed.
 
-Lemma listing_no_current d : has_name cur_name (listing d) = false.
+Lemma ends_with_app x s : ends_with (x ++ s) s = true.
+Proof. unfold ends_with. rewrite rev_app_distr. apply starts_with_app. Qed.
+
+Lemma log_name_own root date : own_log root {| e_name := log_name root date; e_file := true |} = true.
 Proof.
-  destruct (has_name cur_name (listing d)) eqn:E; auto.
-  apply has_name_in in E as (e & I & N). apply listing_in in I as [_ I]. contradiction.
+  unfold own_log, log_name. simpl e_name. simpl e_file.
+  replace (root ++ [45%N] ++ date ++ dot_log) with ((root ++ [45%N]) ++ date ++ dot_log) at 1
+    by (rewrite <- app_assoc; reflexivity).
+  rewrite starts_with_app.
+  assert (root ++ [45%N] ++ date ++ dot_log = (root ++ [45%N] ++ date) ++ dot_log) as E
+    by (rewrite <- !app_assoc; reflexivity).
+  simpl in E. rewrite E. rewrite ends_with_app. reflexivity.
 Qed.
 
-Lemma listing_sorted d : StronglySorted R (listing d).
+(* the listing: the handler's own log files only *)
+Lemma listing_in p e d : In e (listing p d) <-> In e d /\ own_log p e = true.
+Proof. unfold listing. rewrite sort_in, filter_In. tauto. Qed.
+
+Lemma listing_sorted p d : StronglySorted R (listing p d).
 Proof. apply sort_sorted. Qed.
 
+(* what is not a regular file named <root>-*.log is never a victim *)
+Lemma foreign_not_listed p d e :
+  NoDup (map e_name d) -> In e d -> own_log p e = false -> has_name (e_name e) (listing p d) = false.
+Proof.
+  intros ND I F. destruct (has_name (e_name e) (listing p d)) eqn:H; auto.
+  apply has_name_in in H as (x & Ix & N). apply listing_in in Ix as [Ix O].
+  assert (x = e); [|subst; congruence].
+  clear O F. induction d as [|a r]; [destruct I|]. simpl in ND. inversion ND as [|? ? Na Nr]; subst.
+  destruct I as [I|I], Ix as [Ix|Ix]; subst; auto.
+  - exfalso. apply Na. rewrite <- N. apply in_map; auto.
+  - exfalso. apply Na. rewrite N. apply in_map; auto.
+Qed.
+
 (* _open *)
-Definition cur_entry : entry := {| e_name := cur_name; e_dir := false |}.
-Definition file_entry (fn : name) : entry := {| e_name := fn; e_dir := false |}.
+Definition cur_entry : entry := {| e_name := cur_name; e_file := false |}.
+Definition file_entry (fn : name) : entry := {| e_name := fn; e_file := true |}.
 
 Lemma open_has_current d fn : has_name cur_name (open_file d fn) = true.
 Proof.
@@ -228,118 +250,10 @@ Proof.
   rewrite last_last in H. simpl in H. discriminate.
 Qed.
 
-(* ------------------------------------------------------------------ what a rollover does, any slice *)
-Lemma rollover_frame k prefix n d date :
-  (forall e, In e (fst (do_rollover k prefix n d date)) -> In e (open_file d (log_name prefix date))) /\
-  has_name cur_name (fst (do_rollover k prefix n d date)) = true.
+Lemma own_not_current p e : own_log p e = true -> e_name e <> cur_name.
 Proof.
-  unfold do_rollover. destruct n as [|n]; simpl.
-  - split; auto. apply open_has_current.
-  - split.
-    + intros e. apply remove_loop_sub.
-    + rewrite remove_loop_keeps; [apply open_has_current|].
-      destruct (has_name cur_name (removal_slice k (S n) _)) eqn:E; auto.
-      apply has_name_in in E as (e & I & N). apply slice_sub in I. apply listing_in in I as [_ I].
-      contradiction.
-Qed.
-
-Lemma rollover_zero k prefix d date :
-  do_rollover k prefix 0 d date = (open_file d (log_name prefix date), false) /\
-  (forall e, In e d -> e_name e <> cur_name -> In e (fst (do_rollover k prefix 0 d date))) /\
-  has_name (log_name prefix date) (fst (do_rollover k prefix 0 d date)) = true.
-Proof.
-  split; [reflexivity|]. split.
-  - intros e I N. simpl. apply open_keeps; auto.
-  - simpl. apply open_has_file.
-Qed.
-
-(* ------------------------------------------------------------------ the last file of the listing *)
-Lemma last_skipn (l : list entry) d0 : forall k, k < length l -> last (skipn k l) d0 = last l d0.
-Proof.
-  induction l as [|a r]; simpl; intros k H; [lia|]. destruct k as [|k]; auto.
-  simpl. rewrite IHr by lia. destruct r; simpl in *; [lia|auto].
-Qed.
-
-Lemma skipn_nonempty (l : list entry) k : k < length l -> skipn k l <> [].
-Proof.
-  revert k; induction l as [|a r]; simpl; intros k H; [lia|]. destruct k; simpl; [discriminate|].
-  apply IHr; lia.
-Qed.
-
-Section Written.
-  Variable prefix date : name.
-  Variable d : dir.
-  Let fn := log_name prefix date.
-  Let d1 := open_file d fn.
-  Let files := listing d1.
-
-  (* the name of the file being written is the greatest log name in the directory *)
-  Hypothesis newest : forall e, In e d1 -> e_name e <> cur_name -> name_leb (e_name e) fn = true.
-
-  Lemma written_listed : exists e, In e files /\ e_name e = fn.
-  Proof.
-    pose proof (open_has_file d fn) as H. apply has_name_in in H as (e & I & N).
-    exists e. split; auto. apply listing_in. split; auto. rewrite N. apply log_name_not_current.
-  Qed.
-
-  Lemma files_nonempty : 0 < length files.
-  Proof. destruct written_listed as (e & I & _). destruct files; [destruct I|simpl; lia]. Qed.
-
-  Lemma last_is_written : e_name (last files cur_entry) = fn.
-  Proof.
-    destruct written_listed as (e & I & N).
-    assert (files <> []) as NE by (intros Z; rewrite Z in I; destruct I).
-    pose proof (sorted_last_max files (listing_sorted d1) e cur_entry I) as L1.
-    pose proof (last_in files cur_entry NE) as IL. apply listing_in in IL as [IL1 IL2].
-    pose proof (newest _ IL1 IL2) as L2.
-    unfold R, entry_leb in L1. rewrite N in L1. apply name_leb_antisym; auto.
-  Qed.
-
-  Lemma written_in_tail n : has_name fn (skipn (length files - S n) files) = true.
-  Proof.
-    apply has_name_in. exists (last files cur_entry). split; [|apply last_is_written].
-    pose proof files_nonempty as P.
-    rewrite <- (last_skipn files cur_entry (length files - S n)) by lia.
-    apply last_in. apply skipn_nonempty. lia.
-  Qed.
-End Written.
-
-(* with the slice of the pinned source the file being written is removed by every rollover with retention > 0 *)
-Lemma tail_removes_written prefix n d date :
-  (forall e, In e (open_file d (log_name prefix date)) -> e_dir e = false) ->
-  (forall e, In e (open_file d (log_name prefix date)) -> e_name e <> cur_name ->
-             name_leb (e_name e) (log_name prefix date) = true) ->
-  has_name (log_name prefix date) (fst (do_rollover SliceTail prefix (S n) d date)) = false.
-Proof.
-  intros ND NW. unfold do_rollover. simpl removal_slice.
-  match goal with |- has_name ?f (fst (remove_loop ?dd ?vs)) = false =>
-    destruct (remove_loop_nodirs f vs dd) as [_ B] end.
-  - rewrite Forall_forall. intros e I. apply in_skipn in I. apply listing_in in I as [I _]. auto.
-  - rewrite B. rewrite (written_in_tail prefix date d NW n). rewrite andb_false_r. auto.
-Qed.
-
-(* with the repaired slice (files[:-max_days]) in a directory without sub-directories: exactly the names of the
-   head of the listing disappear, max_days entries stay, and every removed entry sorts below every kept one *)
-Lemma head_retention prefix n d date :
-  let d1 := open_file d (log_name prefix date) in
-  let files := listing d1 in
-  let removed := firstn (length files - S n) files in
-  let kept := skipn (length files - S n) files in
-  (forall e, In e d1 -> e_dir e = false) ->
-  snd (do_rollover SliceHead prefix (S n) d date) = false /\
-  (forall nm, has_name nm (fst (do_rollover SliceHead prefix (S n) d date)) =
-              has_name nm d1 && negb (has_name nm removed)) /\
-  length kept = Nat.min (S n) (length files) /\
-  (forall r k, In r removed -> In k kept -> name_leb (e_name r) (e_name k) = true).
-Proof.
-  intros d1 files removed kept ND.
-  assert (Forall (fun v => e_dir v = false) removed) as F.
-  { rewrite Forall_forall. intros e I. apply in_firstn in I. apply listing_in in I as [I _]. auto. }
-  split; [|split; [|split]].
-  - unfold do_rollover. simpl removal_slice. apply (remove_loop_nodirs [] removed d1 F).
-  - intros nm. unfold do_rollover. simpl removal_slice. apply (remove_loop_nodirs nm removed d1 F).
-  - unfold kept. rewrite skipn_length. lia.
-  - intros r k Ir Ik. apply (sorted_split files (length files - S n) r k (listing_sorted d1) Ir Ik).
+  unfold own_log. intros H N. rewrite N in H. apply andb_true_iff in H as [H _].
+  apply andb_true_iff in H as [_ H]. vm_compute in H. discriminate.
 Qed.
 
 (* ------------------------------------------------------------------ unique names (a real directory) *)
@@ -433,7 +347,7 @@ Proof.
   apply insert_nodup; auto. rewrite sort_names. auto.
 Qed.
 
-Lemma listing_nodup d : NoDup (names d) -> NoDup (names (listing d)).
+Lemma listing_nodup p d : NoDup (names d) -> NoDup (names (listing p d)).
 Proof. intros H. unfold listing. apply sort_nodup. apply filter_nodup. auto. Qed.
 
 Lemma nodup_app_disjoint {A} (a b : list A) x : NoDup (a ++ b) -> In x a -> In x b -> False.
@@ -444,6 +358,111 @@ Proof.
 Qed.
 
 (* in a directory with unique names an entry of the tail of the listing has no namesake in the head *)
+
+(* ------------------------------------------------------------------ what a rollover does, any slice *)
+Lemma victims_own k p n d e : In e (removal_slice k n (listing p d)) -> In e d /\ own_log p e = true.
+Proof. intros I. apply slice_sub in I. apply listing_in in I. auto. Qed.
+
+(* nothing but `current` and the file of the day is created; `current` is never removed *)
+Lemma rollover_frame k prefix n d date :
+  (forall e, In e (do_rollover k prefix n d date) -> In e (open_file d (log_name prefix date))) /\
+  has_name cur_name (do_rollover k prefix n d date) = true.
+Proof.
+  unfold do_rollover. destruct n as [|n].
+  - split; auto. apply open_has_current.
+  - split.
+    + intros e. apply remove_loop_sub.
+    + rewrite remove_loop_names, open_has_current. simpl.
+      destruct (has_name cur_name (removal_slice k (S n) _)) eqn:E; auto.
+      apply has_name_in in E as (e & I & N). apply victims_own in I as [_ O].
+      apply own_not_current in O. contradiction.
+Qed.
+
+(* entries that are not regular files named <root>-*.log (foreign files, sub-directories, links) always stay *)
+Lemma rollover_keeps_foreign k prefix n d date e :
+  NoDup (map e_name d) ->
+  In e (open_file d (log_name prefix date)) -> own_log prefix e = false ->
+  In e (do_rollover k prefix n d date).
+Proof.
+  intros ND I F. unfold do_rollover. destruct n as [|n]; auto.
+  apply remove_loop_keeps_entry; auto.
+  destruct (has_name (e_name e) (removal_slice k (S n) _)) eqn:H; auto.
+  apply has_name_in in H as (x & Ix & N). apply slice_sub in Ix.
+  assert (has_name (e_name e) (listing prefix (open_file d (log_name prefix date))) = true) as H2.
+  { apply has_name_in. exists x. auto. }
+  rewrite foreign_not_listed in H2; auto. apply (open_nodup d _ ND).
+Qed.
+
+Lemma rollover_zero k prefix d date :
+  do_rollover k prefix 0 d date = open_file d (log_name prefix date) /\
+  (forall e, In e d -> e_name e <> cur_name -> In e (do_rollover k prefix 0 d date)) /\
+  has_name (log_name prefix date) (do_rollover k prefix 0 d date) = true.
+Proof.
+  split; [reflexivity|]. split.
+  - intros e I N. simpl. apply open_keeps; auto.
+  - simpl. apply open_has_file.
+Qed.
+
+(* ------------------------------------------------------------------ the last file of the listing *)
+Lemma last_skipn (l : list entry) d0 : forall k, k < length l -> last (skipn k l) d0 = last l d0.
+Proof.
+  induction l as [|a r]; simpl; intros k H; [lia|]. destruct k as [|k]; auto.
+  simpl. rewrite IHr by lia. destruct r; simpl in *; [lia|auto].
+Qed.
+
+Lemma skipn_nonempty (l : list entry) k : k < length l -> skipn k l <> [].
+Proof.
+  revert k; induction l as [|a r]; simpl; intros k H; [lia|]. destruct k; simpl; [discriminate|].
+  apply IHr; lia.
+Qed.
+
+Section Written.
+  Variable prefix date : name.
+  Variable d : dir.
+  Let fn := log_name prefix date.
+  Let d1 := open_file d fn.
+  Let files := listing prefix d1.
+
+  (* an entry carrying the name of the file of the day is a regular file (otherwise open() fails) *)
+  Hypothesis day_file : forall e, In e d -> e_name e = fn -> e_file e = true.
+  (* no log file of the handler is dated later than the file being written *)
+  Hypothesis newest : forall e, In e d1 -> own_log prefix e = true -> name_leb (e_name e) fn = true.
+
+  Lemma written_listed : exists e, In e files /\ e_name e = fn.
+  Proof.
+    pose proof (open_has_file d fn) as H. apply has_name_in in H as (e & I & N).
+    exists e. split; auto. apply listing_in. split; auto.
+    assert (e_file e = true) as F.
+    { apply open_sub in I as [I|[I|I]].
+      - apply day_file; auto.
+      - subst e. exfalso. simpl in N. symmetry in N. revert N. apply log_name_not_current.
+      - subst e. reflexivity. }
+    destruct e as [en ef]. simpl in *. subst. apply log_name_own.
+  Qed.
+
+  Lemma files_nonempty : 0 < length files.
+  Proof. destruct written_listed as (e & I & _). destruct files; [destruct I|simpl; lia]. Qed.
+
+  Lemma last_is_written : e_name (last files cur_entry) = fn.
+  Proof.
+    destruct written_listed as (e & I & N).
+    assert (files <> []) as NE by (intros Z; rewrite Z in I; destruct I).
+    pose proof (sorted_last_max files (listing_sorted prefix d1) e cur_entry I) as L1.
+    pose proof (last_in files cur_entry NE) as IL. apply listing_in in IL as [IL1 IL2].
+    pose proof (newest _ IL1 IL2) as L2.
+    unfold R, entry_leb in L1. rewrite N in L1. apply name_leb_antisym; auto.
+  Qed.
+
+  Lemma written_in_tail n : has_name fn (skipn (length files - S n) files) = true.
+  Proof.
+    apply has_name_in. exists (last files cur_entry). split; [|apply last_is_written].
+    pose proof files_nonempty as P.
+    rewrite <- (last_skipn files cur_entry (length files - S n)) by lia.
+    apply last_in. apply skipn_nonempty. lia.
+  Qed.
+End Written.
+
+(* in a directory with unique names an entry of the tail of the listing has no namesake in the head *)
 Lemma kept_not_removed (files : list entry) k e :
   NoDup (names files) -> In e (skipn k files) -> has_name (e_name e) (firstn k files) = false.
 Proof.
@@ -452,27 +471,46 @@ Proof.
   eapply nodup_app_disjoint; eauto. unfold names. apply in_map; auto.
 Qed.
 
-(* the repaired slice keeps every entry of the tail, in particular the file being written *)
+(* the slice of the source, files[:-max_days]: exactly the names of the head of the sorted listing of the handler's own
+   log files disappear, min(max_days, number of such files) of them stay, every removed one sorts below every kept one *)
+Lemma head_retention prefix n d date :
+  let d1 := open_file d (log_name prefix date) in
+  let files := listing prefix d1 in
+  let removed := firstn (length files - S n) files in
+  let kept := skipn (length files - S n) files in
+  (forall nm, has_name nm (do_rollover SliceHead prefix (S n) d date) =
+              has_name nm d1 && negb (has_name nm removed)) /\
+  length kept = Nat.min (S n) (length files) /\
+  (forall r k, In r removed -> In k kept -> name_leb (e_name r) (e_name k) = true) /\
+  (forall r, In r removed -> In r d1 /\ own_log prefix r = true).
+Proof.
+  intros d1 files removed kept. split; [|split; [|split]].
+  - intros nm. unfold do_rollover. simpl removal_slice. apply remove_loop_names.
+  - unfold kept. rewrite skipn_length. lia.
+  - intros r k Ir Ik. apply (sorted_split files (length files - S n) r k (listing_sorted prefix d1) Ir Ik).
+  - intros r Ir. apply in_firstn in Ir. apply listing_in in Ir. auto.
+Qed.
+
+(* ... every entry of the tail stays, in particular the file being written when no own log file is dated later *)
 Lemma head_keeps prefix n d date :
   let d1 := open_file d (log_name prefix date) in
-  let files := listing d1 in
-  (forall e, In e d1 -> e_dir e = false) ->
+  let files := listing prefix d1 in
   NoDup (names d) ->
-  (forall e, In e (skipn (length files - S n) files) ->
-             has_name (e_name e) (fst (do_rollover SliceHead prefix (S n) d date)) = true) /\
-  ((forall e, In e d1 -> e_name e <> cur_name -> name_leb (e_name e) (log_name prefix date) = true) ->
-   has_name (log_name prefix date) (fst (do_rollover SliceHead prefix (S n) d date)) = true).
+  (forall e, In e (skipn (length files - S n) files) -> In e (do_rollover SliceHead prefix (S n) d date)) /\
+  ((forall e, In e d -> e_name e = log_name prefix date -> e_file e = true) ->
+   (forall e, In e d1 -> own_log prefix e = true -> name_leb (e_name e) (log_name prefix date) = true) ->
+   has_name (log_name prefix date) (do_rollover SliceHead prefix (S n) d date) = true /\
+   e_name (last files cur_entry) = log_name prefix date).
 Proof.
-  intros d1 files ND U.
-  destruct (head_retention prefix n d date ND) as (_ & H & _ & _). fold d1 files in H.
+  intros d1 files U.
   assert (NoDup (names files)) as NF by (apply listing_nodup; apply open_nodup; auto).
   assert (forall e, In e (skipn (length files - S n) files) ->
-             has_name (e_name e) (fst (do_rollover SliceHead prefix (S n) d date)) = true) as K.
-  { intros e I. rewrite H. rewrite (kept_not_removed files _ e NF I).
-    rewrite andb_true_r. apply has_name_in. exists e. split; auto.
-    apply in_skipn in I. apply listing_in in I as [I _]. auto. }
+             In e (do_rollover SliceHead prefix (S n) d date)) as K.
+  { intros e I. unfold do_rollover. simpl removal_slice. apply remove_loop_keeps_entry.
+    - apply in_skipn in I. apply listing_in in I as [I _]. auto.
+    - apply (kept_not_removed files _ e NF I). }
   split; auto.
-  intros NW.
-  pose proof (written_in_tail prefix date d NW n) as T. apply has_name_in in T as (e & I & N).
-  rewrite <- N. apply K. auto.
+  intros DF NW. split; [|apply last_is_written; auto].
+  pose proof (written_in_tail prefix date d DF NW n) as T. apply has_name_in in T as (e & I & N).
+  apply has_name_in. exists e. split; auto.
 Qed.
